@@ -421,6 +421,9 @@ def gen(rng, tier, index=0):
             if rng.random() < 0.2:
                 src = rng.choice(blocks)['name']
                 ins[0] = f"_not_{src}"
+            if rng.random() < 0.2:
+                # no block-connected input at all: constants only, or no inputs
+                ins = [{'const': rng.choice([0, 1, None, 'k'])} for _ in range(rng.randint(0, 2))]
             mode = 'ok'
             if (flags['faults'] and rng.random() < 0.3) or (f3_stratum and k == 0):
                 mode = rng.choice(['raise1', 'raise1', 'undef1'])
@@ -872,6 +875,10 @@ def build(ctx, plan, order, storage):
             elif kind == 'cblock':
                 ins = []
                 for inp in b['inputs']:
+                    if isinstance(inp, dict):
+                        val = inp.get('const')      # a string would be a block name
+                        ins.append(edzed.Const(val) if isinstance(val, str) else val)
+                        continue
                     ref = inp[5:] if inp.startswith('_not_') else inp
                     if ref not in by_name:
                         raise PlanError(f"dangling input {inp}")
@@ -880,7 +887,11 @@ def build(ctx, plan, order, storage):
                 if b.get('on_output'):
                     kw['on_output'] = [edzed.Event(need(d, ('probe',)), b.get('out_etype', 'put'))
                                        for d in b['on_output']]
-                blk = edzed.FuncBlock(name, func=mk_calc(b), x_kind='cblock', **kw).connect(*ins)
+                blk = edzed.FuncBlock(name, func=mk_calc(b), x_kind='cblock', **kw)
+                if ins:
+                    blk.connect(*ins)
+                if not any(isinstance(i, str) for i in b['inputs']):
+                    ctx.run.fired('reach:cblock_without_block_inputs')
             elif kind == 'repeat':
                 blk = edzed.Repeat(name, dest=need(b['dest'], ('probe', 'input')), etype='put',
                                    interval=1.0, x_kind='repeat')
